@@ -357,6 +357,92 @@ func c04Crash(c *Ctx) {
 	for _, p := range points {
 		c04OneCrash(c, ops, writesAt, snaps, p.w, p.mode, r.Chance(0.2) || c.Thorough)
 	}
+	for _, ext := range []string{".mem", ".vlog"} {
+		c04FileCreationCrash(c, ops, snaps, ext)
+	}
+}
+
+// c04FileCreationCrash: the process is killed between the creation and the sizing of the store's next memtable
+// or value-log file (the engine creates the file, then extends it): what is left is a zero-length file with the
+// next file id.  The next start must succeed and every acknowledged operation must be visible.
+func c04FileCreationCrash(c *Ctx, ops []wop, snaps []string, ext string) {
+	dir := scratchDir("c04f")
+	defer os.RemoveAll(dir)
+	tag := "killed while creating the next " + ext + " file"
+	ch, msg := StartChild(dir, nil)
+	if ch == nil {
+		c.Report("H", "C04 child-start", msg, tag)
+		return
+	}
+	ws := &wstate{}
+	for _, op := range ops {
+		var body []byte
+		if op.body != nil {
+			body = op.body(ws)
+		}
+		resp, ok := ch.HTTP(op.method, op.path(ws), body)
+		if !ok || !resp.OK() {
+			c.Report("H", "C04 op-failed", op.name+": "+resp.String(), tag)
+			ch.Kill()
+			return
+		}
+		if op.post != nil {
+			op.post(ws, resp)
+		}
+	}
+	want, _ := c04Snapshot(ch)
+	ch.Kill()
+	planted := 0
+	filepath.Walk(dir, func(path string, info os.FileInfo, err error) error {
+		if err != nil || !info.IsDir() {
+			return nil
+		}
+		if _, e := os.Stat(filepath.Join(path, "MANIFEST")); e != nil {
+			return nil
+		}
+		ents, _ := os.ReadDir(path)
+		max, width := 0, 0
+		for _, e := range ents {
+			if filepath.Ext(e.Name()) == ext {
+				stem := strings.TrimSuffix(e.Name(), ext)
+				if n, err := strconv.Atoi(stem); err == nil {
+					if n > max {
+						max = n
+					}
+					width = len(stem)
+				}
+			}
+		}
+		if width > 0 {
+			if f, e := os.Create(filepath.Join(path, fmt.Sprintf("%0*d%s", width, max+1, ext))); e == nil {
+				f.Close()
+				planted++
+			}
+		}
+		return nil
+	})
+	if planted == 0 {
+		c.Report("H", "C04 no-store-file", "no "+ext+" file found in the store directories", tag)
+		return
+	}
+	ch2, msg := StartChild(dir, nil)
+	c.Eval(tag, true)
+	c.Count("crash.file-creation" + ext)
+	if ch2 == nil {
+		c.Report("O", "C04 no-restart-after-crash", "after a crash the next start did not succeed without manual repair",
+			fmt.Sprintf("%s: the whole workload was acknowledged, the process killed, and a zero-length file with the next file id left in the store directory (the state between creating and sizing the file)\n%s", tag, msg))
+		return
+	}
+	defer ch2.Kill()
+	snap, e := c04Snapshot(ch2)
+	if e != "" {
+		c.Report("O", "C04 unreadable-after-crash", "after recovery the server cannot answer read requests", tag+": "+e)
+		return
+	}
+	if snap != want {
+		c.Report("O", "C04 not-atomic file-creation", "after a crash during the creation of a store file acknowledged work is missing",
+			fmt.Sprintf("%s\nrecovered state:\n%s\n\nstate before the kill:\n%s", tag, indent(snap), indent(want)))
+	}
 }
 
 func c04OneCrash(c *Ctx, ops []wop, writesAt []int, snaps []string, w int, mode string, doubleCrash bool) {
